@@ -116,7 +116,11 @@ type Op struct {
 	N       int
 	Rewind  bool
 	Entries []WLEntry
-	FaultK  int // c02 fault twins: arm the node database to fail its k-th GetNode during this op (0 = no fault)
+	// commitknown_bad: how the wrong root is made ("flip": the true root with one byte
+	// flipped, "prev": the previously committed root, "rand": Hash) and the 32 bytes for "rand"
+	Bad    string
+	Hash   []byte
+	FaultK int // c02 fault twins: arm the node database to fail its k-th GetNode during this op (0 = no fault)
 	// FaultKind: "db" (default; the k-th GetNode returns an error) or "ctx" (at the
 	// k-th GetNode the context of the op is cancelled and the read proceeds)
 	FaultKind string
@@ -141,6 +145,11 @@ func (o Op) MarshalJSON() ([]byte, error) {
 			es = []WLEntry{}
 		}
 		m["entries"] = es
+	case "commitknown_bad":
+		m["bad"] = o.Bad
+		if o.Bad == "rand" {
+			m["hash"] = hex.EncodeToString(o.Hash)
+		}
 	}
 	if o.FaultK > 0 {
 		m["fault_k"] = o.FaultK
@@ -165,6 +174,8 @@ func (o *Op) UnmarshalJSON(b []byte) error {
 		N       int       `json:"n"`
 		Rewind  bool      `json:"rewind"`
 		Entries []WLEntry `json:"entries"`
+		Bad     string    `json:"bad"`
+		Hash    string    `json:"hash"`
 		FaultK  int       `json:"fault_k"`
 		FKind   string    `json:"fault_kind"`
 		Faulted bool      `json:"faulted"`
@@ -180,7 +191,11 @@ func (o *Op) UnmarshalJSON(b []byte) error {
 	if err != nil {
 		return err
 	}
-	*o = Op{K: raw.K, Key: nn(k), Val: nn(v), N: raw.N, Rewind: raw.Rewind, Entries: raw.Entries, FaultK: raw.FaultK, Faulted: raw.Faulted, FaultKind: raw.FKind}
+	hb, err := hex.DecodeString(raw.Hash)
+	if err != nil {
+		return err
+	}
+	*o = Op{Bad: raw.Bad, Hash: hb, K: raw.K, Key: nn(k), Val: nn(v), N: raw.N, Rewind: raw.Rewind, Entries: raw.Entries, FaultK: raw.FaultK, Faulted: raw.Faulted, FaultKind: raw.FKind}
 	return nil
 }
 
@@ -207,9 +222,8 @@ func (c Case) MarshalJSON() ([]byte, error) {
 		ops = []Op{}
 	}
 	m := map[string]any{"mode": c.Mode, "backend": c.Backend, "node_cap": c.NodeCap, "value_cap": c.ValueCap, "ops": ops}
-	if c.Mode == "c03" {
-		m["use_log"] = c.UseLog
-	} else {
+	m["use_log"] = c.UseLog
+	if c.Mode != "c03" {
 		m["twin_of"] = c.TwinOf
 		m["twin_kind"] = c.TwinKind
 	}
@@ -222,7 +236,7 @@ func (c *Case) UnmarshalJSON(b []byte) error {
 		Backend  string `json:"backend"`
 		NodeCap  uint64 `json:"node_cap"`
 		ValueCap uint64 `json:"value_cap"`
-		UseLog   bool   `json:"use_log"`
+		UseLog   *bool  `json:"use_log"`
 		Ops      []Op   `json:"ops"`
 		TwinOf   *int   `json:"twin_of"`
 		TwinKind string `json:"twin_kind"`
@@ -239,8 +253,13 @@ func (c *Case) UnmarshalJSON(b []byte) error {
 		*c = Case{Mode: "keys", Sweep: raw.Sweep, N: raw.N, TwinOf: -1}
 		return nil
 	}
-	*c = Case{Mode: raw.Mode, Backend: raw.Backend, NodeCap: raw.NodeCap, ValueCap: raw.ValueCap, UseLog: raw.UseLog,
+	*c = Case{Mode: raw.Mode, Backend: raw.Backend, NodeCap: raw.NodeCap, ValueCap: raw.ValueCap,
 		Ops: raw.Ops, TwinOf: -1, TwinKind: raw.TwinKind}
+	// a c02 description without the field (written before the option existed) had the write log on
+	c.UseLog = raw.Mode != "c03"
+	if raw.UseLog != nil {
+		c.UseLog = *raw.UseLog
+	}
 	if raw.TwinOf != nil {
 		c.TwinOf = *raw.TwinOf
 	}
@@ -692,7 +711,7 @@ func quietly(f func()) {
 
 func treeOptions(c Case) []mkvs.Option {
 	o := []mkvs.Option{mkvs.Capacity(c.NodeCap, c.ValueCap)}
-	if c.Mode == "c03" && !c.UseLog {
+	if !c.UseLog {
 		o = append(o, mkvs.WithoutWriteLog())
 	}
 	return o
